@@ -121,3 +121,276 @@ def reach_order(perm_i: int, named_zone: bool, named_channel: bool, two_origins:
     post: _ != 0
     """
     return order_check(perm_i, named_zone, named_channel, two_origins, nf_first_b)
+
+
+# ------------------------------------------------------------------------------------------------ file header
+
+from vf.rp66 import tokens as tk
+from vf.harness.objmodel import reset_global_state, untraced, T0
+
+SEQ_MAX = 9999999999 if THOROUGH else 99999
+
+
+def _digits_right_text(vals, n, width):
+    nd = 1
+    lim = 10
+    while n >= lim:
+        nd = nd + 1
+        lim = lim * 10
+    if nd > width:
+        return False
+    m = n
+    k = width - 1
+    for _ in range(nd):
+        if vals[k] != 48 + m % 10:
+            return False
+        m = m // 10
+        k = k - 1
+    while k >= 0:
+        if vals[k] != 32:
+            return False
+        k = k - 1
+    return True
+
+
+def file_header_check(seq, s, origin):
+    reset_global_state()
+    fhs = FileHeaderSet()
+    it = FileHeaderItem(s, fhs, sequence_number=seq, identifier='0')
+    it.origin_reference = origin
+    body = fhs._make_body_bytes()
+    (ps, rule) = tk.parse_eflr(flat(body))
+    if ps is None:
+        return 100 + rule
+    if not tk.text_equals(ps.type, 'FILE-HEADER') or ps.name is not None:
+        return 1
+    if len(ps.template) != 2 or not tk.text_equals(ps.template[0].label, 'SEQUENCE-NUMBER') \
+            or not tk.text_equals(ps.template[1].label, 'ID'):
+        return 2
+    if ps.template[0].code != 20 or ps.template[1].code != 20 or ps.template[0].has_value or ps.template[1].has_value:
+        return 3
+    if len(ps.objects) != 1:
+        return 4
+    (ob, attrs) = ps.objects[0]
+    if ob[0] != origin or ob[1] != 0 or not tk.text_equals(ob[2], '0'):
+        return 5
+    if len(attrs) != 2 or attrs[0].absent or attrs[1].absent:
+        return 6
+    a0, a1 = attrs[0], attrs[1]
+    if a0.count != 1 or a0.code != 20 or a0.values[0][0] != 'ascii' or a0.values[0][1][0] != 'lit':
+        return 7
+    v = a0.values[0][1][1]
+    if len(v) != 10 or not _digits_right_text(v, seq, 10):
+        return 8                           # sequence number right-justified in 10 characters
+    if a1.count != 1 or a1.code != 20 or a1.values[0][0] != 'ascii' or a1.values[0][1][0] != 'lit':
+        return 9
+    w = a1.values[0][1][1]
+    if len(w) != 65:
+        return 10
+    for k in range(65):
+        if k < len(s):
+            if w[k] != ord(s[k]):
+                return 11
+        elif w[k] != 32:
+            return 11                      # id left-justified in 65 characters
+    return 0
+
+
+def ob_file_header(seq: int, s: str, origin: int) -> int:
+    """
+    pre: 1 <= seq <= SEQ_MAX
+    pre: len(s) <= 2 and s.isascii()
+    pre: 0 <= origin < 1073741824
+    post: _ == 0
+    """
+    return file_header_check(seq, s, origin)
+
+
+def reach_file_header(seq: int, s: str, origin: int) -> int:
+    """
+    pre: 1 <= seq <= SEQ_MAX
+    pre: len(s) <= 2 and s.isascii()
+    pre: 0 <= origin < 1073741824
+    post: _ != 0
+    """
+    return file_header_check(seq, s, origin)
+
+
+def file_header_reject_check(seq, n):
+    reset_global_state()
+    s = LenStr(n, 'hid')
+    try:
+        it = FileHeaderItem(s, FileHeaderSet(), sequence_number=seq, identifier='0')
+    except ValueError:
+        if n > 65 or seq < 1 or seq > 9999999999:
+            return 0
+        return 1
+    if n > 65 or seq < 1 or seq > 9999999999:
+        return 2
+    it.origin_reference = 1
+    it.sequence_number = 5                 # digits are the subject of ob_file_header; here: the id field length
+    f = flat(it._make_attrs_bytes())
+    # 0x21, 10, ten literal characters, 0x21, 65, then one source range of 65 characters (id + padding)
+    if len(f) != 15 or f[12] != ('b', 33) or f[13] != ('b', 65):
+        return 3
+    if f[14][0] != 'src' or f[14][3] - f[14][2] != 65:
+        return 4
+    return 0
+
+
+def ob_file_header_reject(seq: int, n: int) -> int:
+    """
+    Over all integers: a header id longer than 65 characters or a sequence number outside 1..10**10-1 is refused at
+    construction; otherwise the id field is exactly 65 characters.
+    pre: 0 <= n <= 300
+    post: _ == 0
+    """
+    return file_header_reject_check(seq, n)
+
+
+def reach_file_header_reject(seq: int, n: int) -> int:
+    """
+    pre: 0 <= n <= 300
+    post: _ != 0
+    """
+    return file_header_reject_check(seq, n)
+
+
+# ---------------------------------------------------------------------------------------------- registry step
+
+NAMES3 = [None, 'A', 'B']
+
+
+def registry_check(pre_mask, ci, ni, via_add):
+    """From an arbitrary registry state over 2 classes x {None,'A','B'} (bit mask of present sets) one request for
+    (class, name) returns the registered set if present, otherwise creates exactly one; add_set refuses duplicates."""
+    classes = [eflr_types.ZoneSet, eflr_types.AxisSet]
+    reg = EFLRSetsDict()
+    present = {}
+    for k in range(6):
+        if pre_mask // (2 ** k) % 2 == 1:
+            c, nm = classes[k // 3], NAMES3[k % 3]
+            present[(c, nm)] = reg.get_or_make_set(c, set_name=nm)
+    cls, nm = classes[ci], NAMES3[ni]
+    before = {k: v for k, v in present.items()}
+    if via_add:
+        new = cls(set_name=nm)
+        try:
+            reg.add_set(new)
+        except RuntimeError:
+            return 0 if (cls, nm) in before else 1
+        if (cls, nm) in before:
+            return 2
+        got = new
+    else:
+        got = reg.get_or_make_set(cls, set_name=nm)
+        if (cls, nm) in before and got is not before[(cls, nm)]:
+            return 3
+    if got.set_name != nm or type(got) is not cls:
+        return 4
+    # every earlier entry untouched; exactly one object per (class, name)
+    for (c, n2), v in before.items():
+        if reg[c][n2] is not v:
+            return 5
+    total = sum(len(d) for d in reg.values())
+    if total != len(before) + (0 if (cls, nm) in before else 1):
+        return 6
+    if reg.try_add_set(cls(set_name=nm)):
+        return 7                           # already present: must not be replaced
+    return 0
+
+
+def ob_registry(pre_mask: int, ci: int, ni: int, via_add: bool) -> int:
+    """
+    pre: 0 <= pre_mask < 64 and 0 <= ci <= 1 and 0 <= ni <= 2
+    post: _ == 0
+    """
+    return registry_check(pre_mask, ci, ni, via_add)
+
+
+def reach_registry(pre_mask: int, ci: int, ni: int, via_add: bool) -> int:
+    """
+    pre: 0 <= pre_mask < 64 and 0 <= ci <= 1 and 0 <= ni <= 2
+    post: _ != 0
+    """
+    return registry_check(pre_mask, ci, ni, via_add)
+
+
+# ------------------------------------------------------------------------------------- defining-origin parameters
+
+import types as _types
+import dliswriter.logical_record.eflr_types.origin as origin_mod
+import numpy as _np
+
+
+class _Clock:
+    calls = 0
+
+    @classmethod
+    def now(cls):
+        cls.calls += 1
+        return T0
+
+
+def origin_params_check(give_fsn, fsn, rnd, give_time, change_file_id):
+    """OriginItem consults the RNG / the clock iff the value was not supplied; FILE-SET-NUMBER is always present;
+    check_objects' origin check raises iff FILE-ID differs from the header id (and fills it when unset)."""
+    df, (lf,) = new_file(1)
+    rcalls = []
+
+    def randint(lo, hi):
+        rcalls.append((lo, hi))
+        return rnd
+    real_np, real_dt = origin_mod.np, origin_mod.datetime
+    origin_mod.np = _types.SimpleNamespace(iinfo=_np.iinfo, uint32=_np.uint32, random=_types.SimpleNamespace(randint=randint))
+    origin_mod.datetime = _Clock
+    _Clock.calls = 0
+    try:
+        o = lf.add_origin('O', file_set_number=fsn if give_fsn else None, creation_time=T0 if give_time else None)
+    finally:
+        origin_mod.np, origin_mod.datetime = real_np, real_dt
+    if give_fsn:
+        if len(rcalls) != 0 or o.file_set_number.value != fsn:
+            return 1
+    else:
+        if len(rcalls) != 1 or o.file_set_number.value != rnd:
+            return 2
+        if rcalls[0][0] != 1 or rcalls[0][1] != 4294967295 - 3221225472:
+            return 3                       # documented range: 1 .. largest 4-byte UVARI
+    if o.file_set_number.value is None:
+        return 4
+    if _Clock.calls != (0 if give_time else 1) or o.creation_time.value != T0:
+        return 5
+    if o.file_id.value != 'LF0':
+        return 6
+    if change_file_id == 1:
+        o.file_id._value = None
+    elif change_file_id == 2:
+        o.file_id._value = 'OTHER'
+    try:
+        lf._check_defining_origin_params()
+    except ValueError:
+        return 0 if change_file_id == 2 else 7
+    if change_file_id == 2:
+        return 8
+    if o.file_id.value != 'LF0':
+        return 9
+    return 0
+
+
+def ob_origin_params(give_fsn: bool, fsn: int, rnd: int, give_time: bool, change_file_id: int) -> int:
+    """
+    pre: 1 <= fsn < 1073741824 and 1 <= rnd < 1073741823
+    pre: 0 <= change_file_id <= 2
+    post: _ == 0
+    """
+    return origin_params_check(give_fsn, fsn, rnd, give_time, change_file_id)
+
+
+def reach_origin_params(give_fsn: bool, fsn: int, rnd: int, give_time: bool, change_file_id: int) -> int:
+    """
+    pre: 1 <= fsn < 1073741824 and 1 <= rnd < 1073741823
+    pre: 0 <= change_file_id <= 2
+    post: _ != 0
+    """
+    return origin_params_check(give_fsn, fsn, rnd, give_time, change_file_id)
